@@ -111,12 +111,12 @@ class Sim:
         if k < 50:
             p = self.pos(r)
             c = rng.choice([0, 1, 2, 3, 4, 6, 9])
-            f = rng.choice(["fwd", "inp"])
+            f = rng.choice(["fwd", "inp", "fwd", "inp", "ptr", "fl", "bidi"])
             xs = self.vals(c)
             if c == 0:
                 self.count("insr-" + f, "empty")
-            elif f == "fwd":
-                self.grow(r, c, "insr-fwd")
+            elif f != "inp":
+                self.grow(r, c, "insr-" + f)
             else:
                 for _ in range(c):
                     self.grow(r, 1, "insr-inp")
@@ -172,15 +172,20 @@ class Sim:
             self.count("swap", "self" if r == s else "x")
             return f"swap {r} {s}"
         if k < 91:
-            s = (r + 1 + rng.below(NV - 1)) % NV
+            s = rng.below(NV)
             self.sz[r], self.sz[s] = self.sz[s], self.sz[r]
             self.cap[r], self.cap[s] = self.cap[s], self.cap[r]
-            self.count("massign", "x")
+            self.count("massign", "self" if r == s else "x")
             return f"massign {r} {s}"
-        if k < 95:
+        if k < 94:
             return self.ctor(r)
-        if k < 97:
+        if k < 96:
             return f"cmp {r} {rng.below(NV)}"
+        if k < 98 and n > 0:
+            how = rng.choice(["idx", "it", "data", "front", "back"])
+            self.count("set", how)
+            i = 0 if how in ("front", "back") else (rng.below(n) if rng.chance(2, 3) else rng.choice([0, n - 1]))
+            return f"set {r} {how} {i} {self.val()}"
         return f"obs {r}"
 
     def ctor(self, r, kind=None):
@@ -196,9 +201,9 @@ class Sim:
             return f"ctor {r} count {n} {self.val()}"
         if kind in (2, 3):
             n = rng.choice([0, 1, 2, 3, 4, 7])
-            f = "fwd" if kind == 2 else "inp"
+            f = rng.choice(["fwd", "fwd", "ptr", "fl", "bidi"]) if kind == 2 else "inp"
             self.sz[r] = n
-            if f == "fwd":
+            if f != "inp":
                 self.cap[r] = n
             else:
                 c = 0
@@ -268,24 +273,38 @@ class Sim:
             self.bws[b] = n - c
             self.count("bappendopt", "some")
             return f"bappendopt {b} {n} {self.lst(self.vals(c))}"
-        if k < 82:
+        if k < 81:
             n = rng.choice([0, 1, 3, 5])
             c = rng.below(n + 1)
             self.brd[b], self.bws[b], self.bcap[b] = c, n - c, n
             self.count("bread", "x")
             return f"bread {b} {n} {self.lst(self.vals(c))}"
+        if k < 85:
+            n = rng.choice([0, 1, 3, 5])
+            if rng.chance(1, 3):
+                self.brd[b] = self.bws[b] = self.bcap[b] = 0
+                self.count("breadopt", "none")
+                return f"breadopt {b} {n} none"
+            c = rng.below(n + 1)
+            self.brd[b], self.bws[b], self.bcap[b] = c, n - c, n
+            self.count("breadopt", "some")
+            return f"breadopt {b} {n} {self.lst(self.vals(c))}"
+        if k < 87:
+            return f"bobs {b}"
         c = (b + 1) % NB
-        if k < 88:
+        if k >= 89 and rng.chance(1, 5):
+            c = b       # self-swap / self-move-assignment
+        if k < 89:
             self.brd[b], self.bws[b], self.bcap[b] = self.brd[c], self.bws[c], self.bcap[c]
             self.brd[c] = self.bws[c] = self.bcap[c] = 0
             self.count("bmovector", "x")
             return f"bmovector {b} {c}"
         for a in (self.brd, self.bws, self.bcap):
             a[b], a[c] = a[c], a[b]
-        if k < 94:
-            self.count("bswap", "x")
+        if k < 95:
+            self.count("bswap", "self" if b == c else "x")
             return f"bswap {b} {c}"
-        self.count("bmassign", "x")
+        self.count("bmassign", "self" if b == c else "x")
         return f"bmassign {b} {c}"
 
 
@@ -330,14 +349,48 @@ def buffer_histories(rng, count, length, stats):
     return ops
 
 
-def systematic(sizes, extras, thorough):
-    """every single operation with every valid position/count/alias from every small (size, spare capacity) state"""
-    ops = []
+KINDS = ("fwd", "inp", "ptr", "fl", "bidi")
+
+
+def single_cases(n, r=0, full=True):
+    """every single operation on register r holding n elements: every valid position / count / aliased index /
+    iterator kind / accessor; full=False: a reduced set (used as the second step of two-step sequences)"""
+    o = (r + 1) % NV
+    srcs = ["v99"] + [f"s{i}" for i in range(n)]
+    cases = []
+    for s in srcs:
+        cases.append(f"push {r} {s}")
+        for p in range(n + 1):
+            cases.append(f"ins1 {r} {p} {s}")
+            for c in ((0, 1, 2, 3) if full else (0, 2)):
+                cases.append(f"insn {r} {p} {c} {s}")
+        for m in range(n + 4) if full else (0, n, n + 2):
+            cases.append(f"resize {r} {m} {s}")
+    for p in range(n + 1):
+        for xs in ("-", "70", "70,71,72") if full else ("70,71",):
+            for k in KINDS if full else ("fwd", "inp"):
+                cases.append(f"insr {r} {p} {k} {xs}")
+    for p in range(n):
+        cases.append(f"era1 {r} {p}")
+        for how in ("idx", "it", "data"):
+            cases.append(f"set {r} {how} {p} 88")
+    cases += [f"set {r} front 0 88", f"set {r} back 0 88"]
+    for a in range(n + 1):
+        for b in range(a, n + 1):
+            cases.append(f"erar {r} {a} {b}")
+    cases += [f"pop {r}", f"clear {r}", f"shrink {r}", f"reserve {r} {n + 5}", f"reserve {r} {n}", f"reserve {r} 0",
+              f"ctor {o} move {r}", f"swap {r} {o}", f"swap {o} {r}", f"massign {o} {r}", f"massign {r} {o}",
+              f"swap {r} {r}", f"massign {r} {r}", f"cmp {r} {r}", f"cmp {r} {o}"]
+    return cases
+
+
+def state_prefixes(sizes, extras, ways):
+    """(prefix ops, n): register 0 holds 10..10+n-1, reached in different ways, with different spare capacity"""
     for n in sizes:
         base = list(range(10, 10 + n))
         lst = ",".join(map(str, base)) if base else "-"
         for extra in extras:
-            for ck in range(3):
+            for ck in ways:
                 pre = ["reset"]
                 if ck == 0:
                     pre.append(f"ctor 0 il {lst}")
@@ -352,31 +405,137 @@ def systematic(sizes, extras, thorough):
                         pre.append(f"push 0 v{10 + i}")
                 if extra is not None:
                     pre.append(f"reserve 0 {n + extra}")
-                if ck != 0 and not thorough:
-                    continue
-                srcs = ["v99"] + [f"s{i}" for i in range(n)]
-                cases = []
-                for s in srcs:
-                    cases.append(f"push 0 {s}")
-                    for p in range(n + 1):
-                        cases.append(f"ins1 0 {p} {s}")
-                        for c in (0, 1, 2, 3):
-                            cases.append(f"insn 0 {p} {c} {s}")
-                    for m in range(n + 4):
-                        cases.append(f"resize 0 {m} {s}")
-                for p in range(n + 1):
-                    for xs in ("-", "70", "70,71,72"):
-                        cases.append(f"insr 0 {p} fwd {xs}")
-                        cases.append(f"insr 0 {p} inp {xs}")
-                for p in range(n):
-                    cases.append(f"era1 0 {p}")
-                for a in range(n + 1):
-                    for b in range(a, n + 1):
-                        cases.append(f"erar 0 {a} {b}")
-                cases += ["pop 0", "clear 0", "shrink 0", f"reserve 0 {n + 5}", "ctor 1 move 0", "swap 0 1", "massign 1 0"]
-                for c in cases:
-                    ops += pre + [c, "obs 0", "push 0 v55", "end"]
+                yield pre, n
+
+
+def systematic(sizes, extras, thorough):
+    """every single operation with every valid position/count/alias from every small (size, spare capacity) state"""
+    ops = []
+    for pre, n in state_prefixes(sizes, extras, (0, 1, 2) if thorough else (0,)):
+        for c in single_cases(n):
+            ops += pre + [c, "obs 0", "push 0 v55", "obs 0", "end"]
     ops.append("reset")
+    return ops
+
+
+def first_steps(n):
+    """(ops, size of register 0 afterwards, register that now holds the old contents or None): operations that leave
+    register 0 in a special state — moved-from, swapped with a null vector, emptied, shrunk, self-assigned"""
+    yield ["ctor 1 move 0"], 0, 1
+    yield ["swap 0 1"], 0, 1
+    yield ["massign 1 0"], 0, 1
+    yield ["clear 0"], 0, None
+    yield ["resize 0 0 v1"], 0, None
+    yield [f"erar 0 0 {n}"], 0, None
+    yield ["shrink 0"], n, None
+    yield ["clear 0", "shrink 0"], 0, None
+    yield [f"reserve 0 {n + 2}"], n, None
+    yield ["massign 0 0"], n, None
+    yield ["swap 0 0"], n, None
+    yield ["ctor 0 buf 0"], 0, None                      # to_raw_vector of a released buffer
+    yield ["bctor 0 2", "bfill 0 41", "ctor 0 buf 0"], 1, None
+    if n > 0:
+        yield ["pop 0"], n - 1, None
+        yield ["set 0 back 0 77"], n, None
+
+
+def two_step(sizes, extras, thorough):
+    """first step (special state) x every second operation; and save - mutate - restore through swap / move"""
+    ops = []
+    for pre, n in state_prefixes(sizes, extras, (0, 2) if thorough else (0,)):
+        for first, n1, other in first_steps(n):
+            for c in single_cases(n1, 0, full=thorough):
+                ops += pre + first + [c, "obs 0", "push 0 v55", "obs 0", "obs 1", "end"]
+            if other is not None:
+                # the old contents now live in another register: mutate them there, bring them back
+                for c in single_cases(n, other, full=False):
+                    ops += pre + first + [c, f"swap 0 {other}", "obs 0", f"massign {other} 0", "obs 0", f"obs {other}",
+                                          "push 0 v55", "end"]
+    ops.append("reset")
+    return ops
+
+
+def buffer_systematic(depth, thorough):
+    """every buffer program of `depth` steps over a small step alphabet from every initial write size, then observation,
+    conversion, use of the vector, conversion of the released buffer"""
+    ops = []
+    sizes = (0, 1, 2, 3)
+
+    def steps(rd, ws, counter):
+        """(op text, new rd, new ws) for buffer 0"""
+        res = []
+        for k in sorted({0, 1, ws} & set(range(ws + 1))):
+            res.append((f"bfill 0 {lstr(counter, k)}", rd + k, ws - k))
+        for m in (0, 1, 2, 4) if thorough else (0, 1, 3):
+            res.append((f"bresize 0 {m}", rd, m))
+        for m in (0, 1, 3):
+            for j in sorted({0, 1, m} & set(range(m + 1))):
+                res.append((f"bappend 0 {m} {lstr(counter, j)}", rd + j, m - j))
+                res.append((f"bappendopt 0 {m} {lstr(counter, j)}", rd + j, m - j))
+            res.append((f"bappendopt 0 {m} none", rd, m))
+        res.append(("bswap 0 0", rd, ws))
+        res.append(("bmassign 0 0", rd, ws))
+        res.append(("bswap 0 1|bswap 1 0", rd, ws))              # there and back
+        res.append(("bmovector 1 0|bmassign 0 1", rd, ws))        # out and in again
+        res.append(("bmovector 1 0|bswap 0 1", rd, ws))
+        return res
+
+    def lstr(counter, k):
+        return ",".join(str(counter + i) for i in range(k)) if k else "-"
+
+    def rec(prefix, rd, ws, d):
+        if d == 0:
+            ops.extend(["reset"] + prefix + ["bobs 0", "ctor 0 buf 0", "bobs 0", "obs 0", "push 0 v55", "shrink 0", "ctor 1 buf 0",
+                                             "obs 1", "bresize 0 1", "bfill 0 5", "ctor 2 buf 0", "obs 2", "end"])
+            return
+        for text, rd2, ws2 in steps(rd, ws, 20 + 10 * d):
+            rec(prefix + text.split("|"), rd2, ws2, d - 1)
+
+    for n in sizes:
+        for kind in ("bctor", "bread", "breadopt"):
+            if kind == "bctor":
+                rec([f"bctor 0 {n}"], 0, n, depth)
+            elif kind == "bread":
+                for j in sorted({0, n}):
+                    rec([f"bread 0 {n} {lstr(60, j)}"], j, n - j, depth - 1)
+            else:
+                for j in sorted({0, n}):
+                    rec([f"breadopt 0 {n} {lstr(60, j)}"], j, n - j, depth - 1)
+                rec([f"breadopt 0 {n} none"], 0, 0, depth - 1)
+    ops.append("reset")
+    return ops
+
+
+def cmp_states(alphabet, maxlen):
+    """every pair of short sequences, each reached in three ways (exact capacity, a stale element behind the end, spare capacity)"""
+    import itertools
+    seqs = [list(t) for n in range(0, maxlen + 1) for t in itertools.product(alphabet, repeat=n)]
+
+    def build(r, xs, way):
+        l = ",".join(map(str, xs)) if xs else "-"
+        if way == 0:
+            return [f"ctor {r} il {l}"]
+        if way == 1:
+            # one more element (the largest / smallest value alternately) that is popped again: it stays behind the end
+            return [f"ctor {r} il {','.join(map(str, xs + [9 if len(xs) % 2 else -9]))}", f"pop {r}"]
+        return [f"ctor {r} il {l}", f"reserve {r} {len(xs) + 3}"]
+
+    ops = []
+    for a in seqs:
+        for b in seqs:
+            for wa in range(3):
+                for wb in range(3):
+                    ops += ["reset"] + build(0, a, wa) + build(1, b, wb) + ["cmp 0 1", "cmp 1 0", "cmp 0 0"]
+    ops.append("reset")
+    return ops
+
+
+def dynarr_ops():
+    ops = []
+    for n in range(0, 6):
+        for j in range(0, n + 1):
+            ops.append(f"dynarr {n} " + (",".join(str(30 + i) for i in range(j)) if j else "-"))
+    ops.append("dynarr 300 " + ",".join(str(i) for i in range(300)))
     return ops
 
 
@@ -401,18 +560,17 @@ def batches(rng, tier):
     sys_ops = systematic(range(0, 5) if thorough else range(0, 4), [None, 0, 1, 2, 3] if thorough else [None, 1, 3], thorough)
     yield Batch("systematic-single-ops", sys_ops, kind="history", exhaustive=True,
                 note="all positions/counts/aliases for sizes 0..%d x spare capacity" % (4 if thorough else 3))
-    # comparison.hpp on every pair of short vectors (equal prefixes, different lengths, empty, one differing element at each place)
-    import itertools
-    seqs = [list(t) for n in range(0, 4 if thorough else 3) for t in itertools.product([0, 1, 2] if thorough else [0, 1], repeat=n)]
-    cmp_ops = []
-    for a in seqs:
-        for b in seqs:
-            cmp_ops += ["reset",
-                        "ctor 0 il " + (",".join(map(str, a)) if a else "-"),
-                        "ctor 1 il " + (",".join(map(str, b)) if b else "-"),
-                        "cmp 0 1", "cmp 1 0", "cmp 0 0"]
-    yield Batch("cmp-all-pairs", cmp_ops, kind="history", exhaustive=True,
-                note="== != < > <= >= on every pair of vectors over a small alphabet up to length %d" % (3 if thorough else 2))
+    yield Batch("two-step-sequences", two_step(range(0, 4) if thorough else range(0, 3), [None, 0, 2] if thorough else [None, 2], thorough),
+                kind="history", exhaustive=True,
+                note="special first step (moved-from, swapped away, emptied, shrunk, self-assigned, converted buffer) x every "
+                     "second operation; save-mutate-restore through swap/move")
+    yield Batch("cmp-all-pairs", cmp_states([-1, 0, 2] if thorough else [-1, 1], 3 if thorough else 2), kind="history", exhaustive=True,
+                note="== != < > <= >= on every pair of vectors over a small alphabet up to length %d, each operand with exact "
+                     "capacity / a stale element behind the end / spare capacity" % (3 if thorough else 2))
+    yield Batch("buffer-systematic", buffer_systematic(3 if thorough else 2, thorough), kind="history", exhaustive=True,
+                note="every buffer program of %d steps from every initial write size 0..3 (ctor / read_from / read_from_opt), "
+                     "observed through operator[], converted, the released buffer converted again" % (3 if thorough else 2))
+    yield Batch("dynarr", dynarr_ops(), exhaustive=True, note="dynamic_array: every size 0..5 x stored prefix")
     stats = {}
     ops = histories(rng.fork("vec"), 30000 if thorough else 6000, 60 if thorough else 30, stats, 8)
     yield Batch("vector-histories", ops, kind="history", note="random histories; generator distribution: " + fmt_stats(stats))
